@@ -76,3 +76,17 @@ pub use chunk_timing_stats::*;
 mod search;
 
 const REALTIME_BUCKET: &str = "unidata-nexrad-level2-chunks";
+
+/// Verification hook: drives the crate-private rotated search with caller-supplied elements.
+#[cfg(nexrad_verif)]
+pub async fn verif_rotated_search<F, V>(
+    element_count: usize,
+    target: V,
+    f: impl FnMut(usize) -> F,
+) -> crate::result::Result<Option<usize>>
+where
+    F: std::future::Future<Output = crate::result::Result<Option<V>>>,
+    V: PartialOrd + Clone,
+{
+    search::search(element_count, target, f).await
+}
